@@ -180,8 +180,28 @@ structure Msg where
   e2e : UInt32
   avps : List Avp
 
-def cmdKnown (c : Nat) : Bool := c ∈ [0, 257, 280, 282, 258, 275, 274, 272, 8388635, 8388636, 271, 265]
-def appKnown (a : Nat) : Bool := a ∈ [0, 3, 4, 16777238, 16777236, 16777302]
+/-- the command codes and application ids the library's two enums hold. A parameter of the model like the nesting limit:
+probed from the code on every run (every 24-bit command code and every 32-bit application id is tried), so that a new
+enum variant is followed and not mistaken for a defect. The defaults are the tables of the pinned commit. -/
+structure Tables where
+  cmds : List Nat := [0, 257, 280, 282, 258, 275, 274, 272, 8388635, 8388636, 271, 265]
+  apps : List Nat := [0, 3, 4, 16777238, 16777236, 16777302]
+
+def Tables.cmdKnown (T : Tables) (c : Nat) : Bool := decide (c ∈ T.cmds)
+def Tables.appKnown (T : Tables) (a : Nat) : Bool := decide (a ∈ T.apps)
+
+/-- every command code fits the 24-bit header field and every application id the 32-bit one -/
+def Tables.Fit (T : Tables) : Prop := (∀ c ∈ T.cmds, c < 16777216) ∧ (∀ a ∈ T.apps, a < 4294967296)
+def Tables.fitB (T : Tables) : Bool := T.cmds.all (· < 16777216) && T.apps.all (· < 4294967296)
+
+theorem Tables.fit_of_fitB (T : Tables) (h : T.fitB = true) : T.Fit := by
+  simp only [Tables.fitB, Bool.and_eq_true, List.all_eq_true, decide_eq_true_eq] at h
+  exact h
+
+theorem Tables.cmd_lt {T : Tables} (hf : T.Fit) {c : Nat} (h : T.cmdKnown c = true) : c < 16777216 :=
+  hf.1 c (by simpa [Tables.cmdKnown] using h)
+theorem Tables.app_lt {T : Tables} (hf : T.Fit) {a : Nat} (h : T.appKnown a = true) : a < 4294967296 :=
+  hf.2 a (by simpa [Tables.appKnown] using h)
 
 def Msg.enc (m : Msg) : Enc :=
   if m.length > 0xFFFFFF then ⟨[], some .tooLong⟩ else
@@ -267,6 +287,7 @@ deriving DecidableEq, Repr
 structure Cfg where
   lenient : Ty → Dir → Bool
   limit : Nat
+  tables : Tables := {}
 
 abbrev Lookup := UInt32 → Option UInt32 → Ty
 
@@ -365,8 +386,8 @@ def decMsg (cfg : Cfg) (dict : Lookup) (bs : Bytes) : Out Msg :=
     let app := fromBe ((h.drop 8).take 4)
     let hbh := (fromBe ((h.drop 12).take 4)).toUInt32
     let e2e := (fromBe ((h.drop 16).take 4)).toUInt32
-    if ¬ cmdKnown cmd then .err .cmd else
-    if ¬ appKnown app then .err .app else
+    if ¬ cfg.tables.cmdKnown cmd then .err .cmd else
+    if ¬ cfg.tables.appKnown app then .err .app else
     (decGroup cfg dict (bs.length + 1) 0 length 20 c).bind fun (avps, _) =>
       .ok ⟨version, length, flags, cmd, app, hbh, e2e, avps⟩
 
